@@ -426,7 +426,7 @@ _BASELINE = None
 def _code_only(text):
     """text with comments and string / char literals blanked"""
     out = list(text)
-    for t in lex(text):
+    for t in lex(text, keep_trivia=True):
         if t.kind in ('str', 'char', 'comment'):
             for i in range(t.start, t.end):
                 out[i] = ' '
